@@ -195,6 +195,14 @@ class NDInterp(Interp):
 
     def skolem(s, shape, name='ix'):
         """a generic in-range index (fresh ints constrained to the shape)"""
+        if getattr(s, 'valuation', None) is not None and getattr(s, '_sk_choice', None) is not None:
+            # replay on concrete data: the clause is evaluated for every index (runner.replay enumerates the choices)
+            k = s._sk_n
+            s._sk_n += 1
+            dims = [int(tofloat_(n)) for n in shape]
+            s._sk_shapes[k] = dims
+            ch = s._sk_choice.get(k)
+            return list(ch) if ch is not None else [0] * len(dims)
         out = []
         for j, n in enumerate(shape):
             i = s.fresh(f'{name}{j}', 'int')
